@@ -169,6 +169,40 @@ def stall_oracle(trial, calls):
     return v
 
 
+def publish_needs_request(trial, calls):
+    """One publish per request, sound for balanced and unbalanced senders (zeromq.py send_maybe / poll_recv): a data publish on the output of a
+    tracked synchronised client clears its 'requested' mark, only a request of that client sets it again, and an output is published on only when all
+    its tracked synchronised clients have asked.  Hence: between two data publishes on the output of a synchronised client that stayed tracked
+    throughout, a request of that client was delivered.  (push=True publishes are exempt by definition.)"""
+    v = []
+    ops, snaps = trial['ops'], trial.get('_snaps') or []
+    if any(op['k'] == 'c' and op['push'] for op in ops): return v
+    callidx, k = {}, 0
+    for i, op in enumerate(ops):
+        if op['k'] != 'd': callidx[i] = k; k += 1
+    for c in trial['clients']:
+        if c['eph']: continue
+        for fid in (c['cid'] + c['uid'], c['cid'] + c['uid'] + "'"):
+            prev_pub, asked, tracked = None, False, False
+            for i, op in enumerate(ops):
+                if op['k'] == 'd':
+                    r = op['r']
+                    if r['cid'] + r['uid'] == fid and r['mid'] >= -1 and op['j'] == c['out']: asked = True
+                    continue
+                kk = callidx[i]
+                if kk >= len(calls) or kk >= len(snaps): break
+                after = fid in snaps[kk]['clients']
+                pub = [o for o in calls[kk] if o['k'] == 'pub' and o['mid'] >= 0 and o['out'] == c['out']]
+                if pub and tracked and after and prev_pub is not None and not asked:
+                    v.append(('publish-without-request', f"call #{kk}: id {pub[0]['mid']} published on output {c['out']} although its tracked synchronised client {fid} "
+                              f"has not asked since the publish of id {prev_pub} (balanced={trial['balance']})"))
+                    break
+                if pub: prev_pub, asked = (pub[0]['mid'] if after else None), False
+                if not after: prev_pub = None
+                tracked = after
+    return v
+
+
 def canon_model_calls(resp, n):
     return [c['outs'] for c in resp['calls'][:n]]
 
@@ -188,4 +222,7 @@ def oracles(trial, calls):
             if len({o['out'] for o in pubs}) != 1: v['C07'].append(('bal-two-outputs', f'id {sorted(mids)} published on outputs {sorted({o["out"] for o in pubs})}'))
         for o in outs:
             if o['k'] == 'exc': v['C02'].append(('exception', o['e']))
+    pr = publish_needs_request(trial, calls)
+    v['C04'] += pr
+    if trial['balance']: v['C07'] += [('bal-output-not-ready', w) for _, w in pr]
     return v
